@@ -215,6 +215,13 @@ def _sym_var(ctx, F, e):
         base = x.value
         if isinstance(base, ast.Subscript) and ast.unparse(base.value) == "self._operations_start":
             return ("start" if x.slice.value == 0 else "end"), base.slice
+    # named fields (NamedTuple / dataclass): .start / .end, .start_var / .end_var
+    if isinstance(x, ast.Attribute) and isinstance(x.value, ast.Subscript) and ast.unparse(x.value.value) == "self._operations_start":
+        a = x.attr.lower()
+        if a.startswith("start"):
+            return "start", x.value.slice
+        if a.startswith("end"):
+            return "end", x.value.slice
     return None
 
 
@@ -369,6 +376,8 @@ def _shapes(ctx, cls):
                 ok = True
             elif isinstance(src.elt, ast.Subscript) and ast.unparse(src.elt.slice) == "1":
                 ok = True
+            elif isinstance(src.elt, ast.Attribute) and isinstance(tgt, ast.Name) and ast.unparse(src.elt.value) == tgt.id and src.elt.attr.lower().startswith("end"):
+                ok = True
         elif it == "self._operations_start.items()" and not g.ifs:
             e = ast.unparse(src.elt)
             if e.endswith("[1]") or (isinstance(g.target, ast.Tuple) and isinstance(g.target.elts[1], ast.Tuple) and ast.unparse(g.target.elts[1].elts[1]) == e):
@@ -480,31 +489,56 @@ def _status(ctx, cls, solve_raw):
     solve = ctx.norm.flat(solve_raw, depth=2)
     guards = [n for n in own_nodes(solve.node) if isinstance(n, ast.If) and any(isinstance(x, ast.Raise) for x in n.body)]
     ok = False
+
+    def status_table(expr):
+        """{status name: text} when expr is <module dict>.get(status) / [status]."""
+        x = ctx.norm.xexpr(solve, expr)
+        tbl = None
+
+        def is_status(e):
+            t = ast.unparse(e)
+            return t == "status" or ".Solve(" in t or ".solve(" in t
+
+        if isinstance(x, ast.Call) and isinstance(x.func, ast.Attribute) and x.func.attr == "get" and x.args and is_status(x.args[0]):
+            tbl = x.func.value
+        elif isinstance(x, ast.Subscript) and is_status(x.slice):
+            tbl = x.value
+        if isinstance(tbl, ast.Name) and tbl.id in solve.module.assigns:
+            tbl = solve.module.assigns[tbl.id]
+        if isinstance(tbl, ast.Dict):
+            return {ast.unparse(k).split(".")[-1]: v for k, v in zip(tbl.keys, tbl.values)}
+        return None
+
     for g in guards:
         rz = [x for x in g.body if isinstance(x, ast.Raise)][0]
         exc = dotted(rz.exc.func if isinstance(rz.exc, ast.Call) else rz.exc)
         if exc != "NoSolutionFoundError":
             continue
         t = g.test
+        names = None
         if isinstance(t, ast.Compare) and len(t.ops) == 1 and isinstance(t.ops[0], ast.NotIn) and ast.unparse(t.left) == "status":
-            comp = t.comparators[0]
-            names = {ast.unparse(e).split(".")[-1] for e in getattr(comp, "elts", [])}
-            if names == {"OPTIMAL", "FEASIBLE"}:
-                ok = True
-                chk.ok("R03.c", solve.qualname, solve.loc(g), "raises NoSolutionFoundError iff status not in {OPTIMAL, FEASIBLE}")
-            else:
-                chk.violation(
-                    "R03.c", solve, t,
-                    f"NoSolutionFoundError is raised when status is not in {sorted(names)}: "
-                    + ("a feasible (time-limited) solution is discarded" if "FEASIBLE" not in names else "a status without a solution is accepted"),
-                    loc=solve.loc(g),
-                )
-                ok = True
+            comp = ctx.norm.xexpr(solve, t.comparators[0])
+            if isinstance(comp, ast.Name) and comp.id in solve.module.assigns:
+                comp = solve.module.assigns[comp.id]
+            names = {ast.unparse(e).split(".")[-1] for e in getattr(comp, "elts", [])} or ({ast.unparse(k).split(".")[-1] for k in comp.keys} if isinstance(comp, ast.Dict) else set())
+        elif isinstance(t, ast.Compare) and len(t.ops) == 1 and isinstance(t.ops[0], ast.Is) and ast.unparse(t.comparators[0]) == "None":
+            tb = status_table(t.left)
+            if tb is not None:
+                names = set(tb)
+        if names is None:
+            raise AnalysisError(f"{solve.loc(g)}: no-solution guard `{ast.unparse(t)[:60]}` not recognised")
+        ok = True
+        if names == {"OPTIMAL", "FEASIBLE"}:
+            chk.ok("R03.c", solve_raw.qualname, solve.loc(g), "raises NoSolutionFoundError iff status not in {OPTIMAL, FEASIBLE}")
         else:
-            chk.violation("R03.c", solve, t, f"the no-solution guard is `{ast.unparse(t)}`, not `status not in {{OPTIMAL, FEASIBLE}}`", loc=solve.loc(g))
-            ok = True
+            chk.violation(
+                "R03.c", solve_raw, t,
+                f"NoSolutionFoundError is raised when status is not in {sorted(names)}: "
+                + ("a feasible (time-limited) solution is discarded" if "FEASIBLE" not in names else "a status without a solution is accepted"),
+                loc=solve.loc(g),
+            )
     if not ok:
-        chk.violation("R03.c", solve, None, "solve never raises NoSolutionFoundError: a status without a solution yields a schedule of zeros")
+        chk.violation("R03.c", solve_raw, None, "solve never raises NoSolutionFoundError: a status without a solution yields a schedule of zeros")
     # the guard must follow the Solve() call and precede the schedule creation
     md = None
     for n in own_nodes(solve.node):
@@ -514,22 +548,29 @@ def _status(ctx, cls, solve_raw):
         raise AnalysisError("solve: metadata dict not recognised")
     kv = {k.value: v for k, v in zip(md.keys, md.values) if isinstance(k, ast.Constant)}
     st = kv["status"]
+    tb = status_table(st)
     if (
         isinstance(st, ast.IfExp) and isinstance(st.body, ast.Constant) and st.body.value == "optimal"
         and isinstance(st.test, ast.Compare) and isinstance(st.test.ops[0], ast.Eq) and ast.unparse(st.test.left) == "status"
         and ast.unparse(st.test.comparators[0]).endswith("OPTIMAL")
         and isinstance(st.orelse, ast.Constant) and st.orelse.value == "feasible"
     ):
-        chk.ok("R03.c", solve.qualname, solve.loc(st), "\"optimal\" only under status == OPTIMAL")
+        chk.ok("R03.c", solve_raw.qualname, solve.loc(st), "\"optimal\" only under status == OPTIMAL")
+    elif tb is not None:
+        opt = [k for k, v in tb.items() if isinstance(v, ast.Constant) and v.value == "optimal"]
+        if opt == ["OPTIMAL"]:
+            chk.ok("R03.c", solve_raw.qualname, solve.loc(st), "\"optimal\" only for status OPTIMAL (status table)")
+        else:
+            chk.violation("R03.c", solve_raw, st, f"the status table reports \"optimal\" for {opt}", loc=solve.loc(st))
     elif isinstance(st, ast.IfExp):
-        chk.violation("R03.c", solve, st, f"status text is `{ast.unparse(st)}`: \"optimal\" can be reported for a solution that is not proven optimal", loc=solve.loc(st))
+        chk.violation("R03.c", solve_raw, st, f"status text is `{ast.unparse(st)}`: \"optimal\" can be reported for a solution that is not proven optimal", loc=solve.loc(st))
     else:
-        chk.violation("R03.c", solve, st, f"status text `{ast.unparse(st)}` does not depend on the solver status", loc=solve.loc(st))
+        chk.violation("R03.c", solve_raw, st, f"status text `{ast.unparse(st)}` does not depend on the solver status", loc=solve.loc(st))
     mk = kv.get("makespan")
     if mk is not None and isinstance(mk, ast.Call) and canon(getattr(mk.func, "attr", "")) == "Value" and mk.args and ast.unparse(mk.args[0]) == "self._makespan":
-        chk.ok("R03.c", solve.qualname, solve.loc(mk), "reported makespan = solver.Value(objective variable)")
+        chk.ok("R03.c", solve_raw.qualname, solve.loc(mk), "reported makespan = solver.Value(objective variable)")
     else:
-        chk.violation("R03.c", solve, mk, f"the reported makespan is `{ast.unparse(mk) if mk is not None else 'missing'}`, not the solver's value of the objective variable")
+        chk.violation("R03.c", solve_raw, mk, f"the reported makespan is `{ast.unparse(mk) if mk is not None else 'missing'}`, not the solver's value of the objective variable")
     # the metadata must reach the Schedule
     cs = cls.methods.get("_create_schedule")
     if cs is None:
